@@ -381,6 +381,42 @@ pub fn run(run: &mut Run) {
             }
         }
     }
+    // the library's own random genome constructors: exactly the requested size, for every size 0..=300
+    // (thorough ..=1100) and both extreme streams plus a mixed one
+    {
+        use ec_core::distributions::conversion::IntoDistribution as _;
+        use push::genome::plushy::ConvertToGeneGenerator;
+        let top = if run.quick() { 300usize } else { 1100 };
+        for n in 0..=top {
+            for (wname, alpha, pick) in [("all-zero", Alphabet::Ext(1), 1u32), ("all-ones", Alphabet::Ext(1), 2), ("mid", Alphabet::Grid(1), 0)] {
+                let sizes_of = |which: usize| -> Result<usize, String> {
+                    let picks: Vec<u32> = vec![pick; 4 * n + 8];
+                    let mut env = Env::from_picks(&picks);
+                    env.horizon = usize::MAX;
+                    let mut rng = ChoiceRng::new(&mut env, alpha);
+                    mcx::guarded(|| match which {
+                        0 => Bitstring::random(n, &mut rng).bits.len(),
+                        1 => Bitstring::random_with_probability(n, 0.5, &mut rng).bits.len(),
+                        _ => {
+                            let dist = IntoDistribution::<PushInstruction>::into_distribution(vec![PushInstruction::push_int(1), PushInstruction::push_int(2)]).expect("two instructions");
+                            let p: Plushy = dist.into_gene_generator().into_collection_generator(n).sample(&mut rng);
+                            p.get_genes().len()
+                        }
+                    })
+                };
+                for (which, name) in ["Bitstring::random", "Bitstring::random_with_probability", "random Plushy"].iter().enumerate() {
+                    run.evaluations += 1;
+                    match sizes_of(which) {
+                        Ok(got) if got == n => {}
+                        Ok(got) => run.violation(format!("collection/size/{name}"), format!("{name} asked for {n} genes produced {got} ({wname} stream)"), json!({"check":"C18","scenario":"genome-size","which":which,"n":n})),
+                        Err(p) => run.violation(format!("collection/size/{name}/panic"), format!("{name} of size {n} panicked: {p}"), json!({"check":"C18","scenario":"genome-size","which":which,"n":n})),
+                    }
+                }
+            }
+        }
+        run.states += top as u64 + 1;
+        run.bound("random_genome_sizes", json!(format!("0..={top}")));
+    }
     for kind in 0..6 {
         for &size in &sizes {
             let (leaves, cps, v, _) = collection_case(kind, size);
@@ -406,7 +442,7 @@ pub fn run(run: &mut Run) {
 }
 
 pub fn replay(v: &Value) -> bool {
-    if v["scenario"] == json!("nested") {
+    if v["scenario"] == json!("nested") || v["scenario"] == json!("genome-size") {
         println!("nested collections are re-checked by the full run: ./check C18");
         return false;
     }
